@@ -22,19 +22,29 @@ pub struct Graph {
 #[derive(Debug, Clone, Serialize, Deserialize)]
 pub struct GraphCase {
     pub g: Graph,
+    /// true: the codec also offers each node's embedded header (a distinct object of another type that lives at the
+    /// node's own address) to the stream
+    #[serde(default)]
+    pub tracked_header: bool,
     /// which reference site to corrupt (fault part) and how
     pub fault_sel: u16,
     pub fault_kind: u8,
 }
 
-pub struct GNode {
+/// first field of a node: a distinct object of a different type at the node's own address
+pub struct Head {
     pub label: u32,
+}
+
+#[repr(C)]
+pub struct GNode {
+    pub head: Head,
     pub me: Weak<GNode>,
     pub edges: RefCell<Vec<Rc<GNode>>>,
 }
 
 fn build(g: &Graph) -> Vec<Rc<GNode>> {
-    let nodes: Vec<Rc<GNode>> = g.labels.iter().map(|l| Rc::new_cyclic(|w| GNode { label: *l, me: w.clone(), edges: RefCell::new(vec![]) })).collect();
+    let nodes: Vec<Rc<GNode>> = g.labels.iter().map(|l| Rc::new_cyclic(|w| GNode { head: Head { label: *l }, me: w.clone(), edges: RefCell::new(vec![]) })).collect();
     for (i, es) in g.edges.iter().enumerate() {
         *nodes[i].edges.borrow_mut() = es.iter().map(|t| nodes[*t].clone()).collect();
     }
@@ -50,19 +60,25 @@ fn unlink(nodes: &[Rc<GNode>]) {
 
 // ---- the user codec: identity offered to the stream is the node address, on both sides, all in safe code
 
-fn ser_slot<O: BinaryOutput>(node: &Rc<GNode>, ctx: &mut SerializationContext<O>) -> desert::Result<()> {
+fn ser_slot<O: BinaryOutput>(node: &Rc<GNode>, ctx: &mut SerializationContext<O>, th: bool) -> desert::Result<()> {
     if ctx.store_ref_or_object(&**node)? {
-        ctx.write_u32(node.label);
+        if th {
+            if ctx.store_ref_or_object(&node.head)? {
+                ctx.write_u32(node.head.label);
+            }
+        } else {
+            ctx.write_u32(node.head.label);
+        }
         let edges = node.edges.borrow();
         ctx.write_var_u32(edges.len() as u32);
         for child in edges.iter() {
-            ser_slot(child, ctx)?;
+            ser_slot(child, ctx, th)?;
         }
     }
     Ok(())
 }
 
-fn de_slot(ctx: &mut DeserializationContext<'_>, all: &mut Vec<Rc<GNode>>, depth: usize) -> desert::Result<Rc<GNode>> {
+fn de_slot(ctx: &mut DeserializationContext<'_>, all: &mut Vec<Rc<GNode>>, depth: usize, th: bool) -> desert::Result<Rc<GNode>> {
     if depth > 5000 {
         return Err(desert::Error::DeserializationFailure("graph nesting too deep for the harness".into()));
     }
@@ -72,13 +88,24 @@ fn de_slot(ctx: &mut DeserializationContext<'_>, all: &mut Vec<Rc<GNode>>, depth
             g.me.upgrade().ok_or_else(|| desert::Error::DeserializationFailure("dead node".into()))
         }
         None => {
-            let label = ctx.read_u32()?;
-            let node = Rc::new_cyclic(|w| GNode { label, me: w.clone(), edges: RefCell::new(vec![]) });
+            let label = if th {
+                match ctx.try_read_ref()? {
+                    // a header is never shared between nodes: a reference here can only come from damaged input
+                    Some(any) => any.downcast_ref::<Head>().map(|h| h.label).ok_or_else(|| desert::Error::DeserializationFailure("header slot refers to a foreign object".into()))?,
+                    None => ctx.read_u32()?,
+                }
+            } else {
+                ctx.read_u32()?
+            };
+            let node = Rc::new_cyclic(|w| GNode { head: Head { label }, me: w.clone(), edges: RefCell::new(vec![]) });
             all.push(node.clone());
             ctx.state_mut().store_ref(&*node);
+            if th {
+                ctx.state_mut().store_ref(&node.head);
+            }
             let n = ctx.read_var_u32()?;
             for _ in 0..n {
-                let child = de_slot(ctx, all, depth + 1)?;
+                let child = de_slot(ctx, all, depth + 1, th)?;
                 node.edges.borrow_mut().push(child);
             }
             Ok(node)
@@ -86,20 +113,20 @@ fn de_slot(ctx: &mut DeserializationContext<'_>, all: &mut Vec<Rc<GNode>>, depth
     }
 }
 
-fn encode(root: &Rc<GNode>) -> desert::Result<Vec<u8>> {
+fn encode(root: &Rc<GNode>, th: bool) -> desert::Result<Vec<u8>> {
     let mut ctx = SerializationContext::new(Vec::new());
-    ser_slot(root, &mut ctx)?;
+    ser_slot(root, &mut ctx, th)?;
     Ok(ctx.into_output())
 }
 
 /// the model: pre-order of first encounter; first offer = 00 + body, later offers = var-u32 id (ids from 1)
-fn model_bytes(g: &Graph) -> (Vec<u8>, Vec<(usize, usize)>, usize) {
+fn model_bytes(g: &Graph, th: bool) -> (Vec<u8>, Vec<(usize, usize)>, usize) {
     let mut ids: Vec<Option<u32>> = vec![None; g.labels.len()];
     let mut next = 0u32;
     let mut out = Vec::new();
     let mut ref_sites = Vec::new();
     // iterative pre-order with explicit stack of (node, next edge)
-    fn slot(n: usize, g: &Graph, ids: &mut Vec<Option<u32>>, next: &mut u32, out: &mut Vec<u8>, ref_sites: &mut Vec<(usize, usize)>) {
+    fn slot(n: usize, g: &Graph, ids: &mut Vec<Option<u32>>, next: &mut u32, out: &mut Vec<u8>, ref_sites: &mut Vec<(usize, usize)>, th: bool) {
         match ids[n] {
             Some(id) => {
                 let st = out.len();
@@ -110,15 +137,20 @@ fn model_bytes(g: &Graph) -> (Vec<u8>, Vec<(usize, usize)>, usize) {
                 *next += 1;
                 ids[n] = Some(*next);
                 out.push(0);
+                if th {
+                    // the header is an object of its own: first (and only) offer, it takes the next number
+                    *next += 1;
+                    out.push(0);
+                }
                 out.extend_from_slice(&g.labels[n].to_be_bytes());
                 var_u32(g.edges[n].len() as u32, out);
                 for t in &g.edges[n] {
-                    slot(*t, g, ids, next, out, ref_sites);
+                    slot(*t, g, ids, next, out, ref_sites, th);
                 }
             }
         }
     }
-    slot(0, g, &mut ids, &mut next, &mut out, &mut ref_sites);
+    slot(0, g, &mut ids, &mut next, &mut out, &mut ref_sites, th);
     (out, ref_sites, next as usize)
 }
 
@@ -181,8 +213,8 @@ fn isomorphic(g: &Graph, root: &Rc<GNode>) -> Result<(), String> {
                 map[i] = Some(d.clone());
             }
         }
-        if d.label != g.labels[i] {
-            return Err(format!("label of node {i}: {} instead of {}", d.label, g.labels[i]));
+        if d.head.label != g.labels[i] {
+            return Err(format!("label of node {i}: {} instead of {}", d.head.label, g.labels[i]));
         }
         let es = d.edges.borrow();
         if es.len() != g.edges[i].len() {
@@ -200,21 +232,24 @@ pub fn check_graph(c: &GraphCase, acc: &mut Acc, record: bool) -> Verdict {
     if g.labels.is_empty() || g.edges.len() != g.labels.len() || g.edges.iter().flatten().any(|t| *t >= g.labels.len()) {
         return Verdict::Skip;
     }
-    let (want, ref_sites, n_objects) = model_bytes(g);
+    let th = c.tracked_header;
+    let (want, ref_sites, n_objects) = model_bytes(g, th);
+    let n_nodes = if th { n_objects / 2 } else { n_objects };
     let (cyc, shared) = classify(g);
     if record {
-        let class = match (cyc, shared) {
+        let class = format!("{}{}", match (cyc, shared) {
             (true, _) => "cyclic",
             (false, true) => "shared, acyclic",
             _ => "tree",
-        };
-        acc.case(class, hash_json(g), cyc || shared);
+        }, if th { " / embedded header object tracked too" } else { "" });
+        let class = class.as_str();
+        acc.case(class, hash_json(&(g, th)), cyc || shared);
         if acc.wants_sample(class) {
             acc.sample(class, json!({"labels": g.labels, "edges": g.edges, "bytes_hex": hex(&want[..want.len().min(64)])}));
         }
     }
     let nodes = build(g);
-    let enc = guarded(|| encode(&nodes[0]));
+    let enc = guarded(|| encode(&nodes[0], th));
     let result = (|| {
         let bytes = match enc {
             Ok(Ok(b)) => b,
@@ -225,20 +260,20 @@ pub fn check_graph(c: &GraphCase, acc: &mut Acc, record: bool) -> Verdict {
         if bytes != want {
             return Verdict::Fail(format!("graph {:?} / {:?} encodes as {} — the model (new marker + body on first offer, 1-based first-encounter number afterwards) gives {}", g.labels, g.edges, hex(&bytes), hex(&want)));
         }
-        if n_objects != reachable(g).iter().filter(|x| **x).count() {
+        if n_nodes != reachable(g).iter().filter(|x| **x).count() {
             return Verdict::Fail("HARNESS: model wrote a different number of objects than are reachable".into());
         }
         // (b) decode and compare shapes
         let mut all = Vec::new();
         let mut ctx = DeserializationContext::new(&bytes);
-        let dec = guarded(|| de_slot(&mut ctx, &mut all, 0));
+        let dec = guarded(|| de_slot(&mut ctx, &mut all, 0, th));
         let v = match dec {
             Ok(Ok(root)) => {
                 let r = isomorphic(g, &root);
                 match r {
                     Ok(()) => {
-                        if all.len() != n_objects {
-                            Verdict::Fail(format!("decoding created {} objects for {} reachable nodes", all.len(), n_objects))
+                        if all.len() != n_nodes {
+                            Verdict::Fail(format!("decoding created {} objects for {} reachable nodes", all.len(), n_nodes))
                         } else {
                             Verdict::Pass
                         }
@@ -267,7 +302,7 @@ pub fn check_graph(c: &GraphCase, acc: &mut Acc, record: bool) -> Verdict {
             t.splice(off..off + len, nb);
             let mut all = Vec::new();
             let mut ctx = DeserializationContext::new(&t);
-            let r = guarded(|| de_slot(&mut ctx, &mut all, 0).map(|_| ()).map_err(|e| vcat::errinfo(&e).kind));
+            let r = guarded(|| de_slot(&mut ctx, &mut all, 0, th).map(|_| ()).map_err(|e| vcat::errinfo(&e).kind));
             unlink(&all);
             if record {
                 acc.bump("unknown_reference_faults_injected", 1);
@@ -335,7 +370,7 @@ pub fn run_c10(cx: &Cx) -> PropResult {
                 if idx % cx.shards != shard {
                     return true;
                 }
-                let c = GraphCase { g: g.clone(), fault_sel: (idx * 7919) as u16, fault_kind: idx as u8 };
+                let c = GraphCase { g: g.clone(), tracked_header: idx % 3 == 0, fault_sel: (idx * 7919) as u16, fault_kind: idx as u8 };
                 match check_graph(&c, acc, true) {
                     Verdict::Fail(e) => {
                         acc.violation(e, to_json(&c));
@@ -348,13 +383,13 @@ pub fn run_c10(cx: &Cx) -> PropResult {
                 return;
             }
         }
-        let strat = (random_graph_strategy(), any::<u16>(), any::<u8>()).prop_map(|(g, fault_sel, fault_kind)| GraphCase { g, fault_sel, fault_kind }).boxed();
+        let strat = (random_graph_strategy(), any::<bool>(), any::<u16>(), any::<u8>()).prop_map(|(g, tracked_header, fault_sel, fault_kind)| GraphCase { g, tracked_header, fault_sel, fault_kind }).boxed();
         drive(tag_seed(derive_seed(cx.seed, cx.prop, shard as u64, 0), 0), &strat, per_shard, acc, &|c: &GraphCase| to_json(c), &mut |c, a, r| check_graph(c, a, r));
     });
     let mut r = PropResult::new(
         acc,
         "exploration",
-        "graphs: EXHAUSTIVELY every rooted digraph with 1-4 nodes whose nodes have ordered out-edge lists of length <= 2 over any targets (self-loops, diamonds, back-edges, parallel edges), all nodes reachable; randomly: 1-60 nodes, out-degree <= 5. A harness codec written in safe code offers node addresses as identities (store_ref_or_object on the writer; state_mut().store_ref right after allocation and try_read_ref + downcast on the reader). Oracles: bytes == model (first offer: 00 + body, later offers: var-u32 of the 1-based first-encounter number, pre-order), objects written == reachable nodes, encoding terminates on cycles; decoded graph isomorphic by a simultaneous walk (labels, ordered edges; two edges reach the same original node iff the decoded targets are pointer-equal); a reference rewritten to objects+1, objects+1000 or u32::MAX decodes to Err(InvalidRefId). Non-trivial = a cycle or a node with in-degree >= 2.",
+        "graphs: EXHAUSTIVELY every rooted digraph with 1-4 nodes whose nodes have ordered out-edge lists of length <= 2 over any targets (self-loops, diamonds, back-edges, parallel edges), all nodes reachable; randomly: 1-60 nodes, out-degree <= 5. A harness codec written in safe code offers node addresses as identities (in one third / one half of the cases it additionally offers each node's embedded header, a distinct object of another type that lives at the node's own address, which must get its own number) (store_ref_or_object on the writer; state_mut().store_ref right after allocation and try_read_ref + downcast on the reader). Oracles: bytes == model (first offer: 00 + body, later offers: var-u32 of the 1-based first-encounter number, pre-order), objects written == reachable nodes, encoding terminates on cycles; decoded graph isomorphic by a simultaneous walk (labels, ordered edges; two edges reach the same original node iff the decoded targets are pointer-equal); a reference rewritten to objects+1, objects+1000 or u32::MAX decodes to Err(InvalidRefId). Non-trivial = a cycle or a node with in-degree >= 2.",
     );
     r.exhaustive = Some(true);
     r.extra = json!({"exhaustive_note": "exhaustive for graphs of <= 4 nodes with out-degree <= 2; larger graphs are sampled", "exhaustive_max_nodes": max_n});
